@@ -28,6 +28,9 @@ def length(repo: Repo, ci: Optional[ClassInfo], e: ast.expr, env: Optional[Dict[
     if key in hints:
         return "bytes", hints[key]
     try:
+        if any(isinstance(n, ast.Attribute) and isinstance(n.value, ast.Name) and n.value.id == "self" and not n.attr.isupper()
+               for n in ast.walk(e)):
+            raise NotConst("instance state")      # self.<attr> is a run-time value, not its class-level default
         v = repo.fold(e, ci=ci)
         if isinstance(v, (bytes, bytearray)):
             return "bytes", (len(v), len(v))
